@@ -157,7 +157,7 @@ def run_unit(template, src_root='/repo', workdir=None, timeout=600, threads=8, w
                         break
             elif 'assertion failed' in ml:
                 src_line = gen_lines[line - 1] if line and line <= len(gen_lines) else ''
-                kind = 'panic-assert' if re.search(r'\bassert!\s*\(', src_line) else 'proof-hint'
+                kind = 'panic-assert' if re.search(r'\bassert!\s*\(', src_line) else ('bits-lane' if '[bits]' in src_line else ('postcondition' if '[post]' in src_line else 'proof-hint'))
             elif 'overflow' in ml or 'index' in ml or 'division' in ml:
                 kind = 'panic-arith'
             entry = {'class': c, 'kind': kind, 'function': fname, 'msg': rec['msg'], 'line': line,
@@ -199,7 +199,7 @@ def run_unit(template, src_root='/repo', workdir=None, timeout=600, threads=8, w
                     failed_probe.add(f2)
                 else:
                     other.append(rec['msg'])
-            expected = {m['obligation'] for m in vmetas}
+            expected = {m['obligation'] for m in vmetas if not m.get('assumed')}
             vac = {'probes': len(expected), 'probes_refuted': len(failed_probe & expected),
                    'vacuous': sorted(expected - failed_probe), 'other_messages': other[:5], 'wall_s': rv['wall_s']}
             res['vacuity'] = vac
